@@ -20,7 +20,10 @@ from . import common
 
 # (class qualname, name override for generic components)
 KINDS = [("cal.Calendar", None), ("cal.Event", None), ("cal.Component", "X-CUSTOM"),
-         ("cal.Todo", None), ("cal.Timezone", None)]
+         ("cal.Todo", None), ("cal.Timezone", None),
+         # a generic component that *is* a VEVENT by name (what the parser builds when the
+         # factory has no class for a name, or a caller builds by hand)
+         ("cal.Component", "VEVENT")]
 
 # ordered-tree shapes as nested tuples, up to 5 nodes / depth 3
 SHAPES = [
@@ -57,6 +60,36 @@ class TreeInterp(Interp):
 
     def _native_obj_attr(self, o, name):
         return super()._native_obj_attr(o, name)
+
+    def _memo_key(self, x):
+        """Hash/equality of the abstract serialisation (bytes built from content lines): two
+        serialisations are the same bytes iff they list equal lines in the same order."""
+        if isinstance(x, tuple) and len(x) == 2 and x[0] == "bytes" and isinstance(x[1], list):
+            return ("bytes", tuple(self._memo_key(l) for l in x[1]))
+        if isinstance(x, tuple) and len(x) == 5 and x[0] == "line":
+            _, name, params, value, srt = x
+            return ("line", self._str(name) if not isinstance(name, str) else name,
+                    self._content_key(params), self._content_key(value), bool(srt))
+        return super()._memo_key(x)
+
+    def _content_key(self, v):
+        if isinstance(v, Obj) and v.items is not None:
+            return ("map", tuple(sorted((k, self._content_key(w)) for k, w in v.items.items())))
+        if isinstance(v, Obj) and v.strval is not None:
+            return ("text", v.strval)
+        if isinstance(v, Obj) and v.listval is not None:
+            return ("list", tuple(self._content_key(w) for w in v.listval))
+        if isinstance(v, Obj):
+            inner = {k: w for k, w in v.attrs.items() if k != "params"}
+            return ("obj", v.cls.name if v.cls is not None else None,
+                    tuple(sorted((k, self._content_key(w)) for k, w in inner.items())))
+        if isinstance(v, (list, tuple)):
+            return tuple(self._content_key(w) for w in v)
+        if isinstance(v, (str, bytes, int, float, bool)) or v is None:
+            return v
+        if hasattr(v, "key"):
+            return ("val", repr(v.key()))
+        return ("id", id(v))
 
 
 def build(it, shape, kinds, layouts, stub_values=False):
@@ -156,6 +189,9 @@ def trees(thorough):
     yield SAME_SHAPE, [("cal.Event", None)], LAYOUTS
     yield SAME_SHAPE, [("cal.Component", "X-CUSTOM")], LAYOUTS[1:] + LAYOUTS[:1]
     yield SAME_SHAPE, [("cal.Calendar", None), ("cal.Event", None)], LAYOUTS
+    # components that are of a kind by name only (generic class), next to the typed ones
+    yield ((), (), (), ((),)), [("cal.Calendar", None), ("cal.Event", None), ("cal.Component", "VEVENT"),
+                               ("cal.Todo", None), ("cal.Component", "VTODO"), ("cal.Component", "VEVENT")], LAYOUTS
     kinds_rot = [KINDS, KINDS[1:] + KINDS[:1], KINDS[2:] + KINDS[:2]]
     lay_rot = [LAYOUTS[1:] + LAYOUTS[:1], LAYOUTS[3:] + LAYOUTS[:3], LAYOUTS]
     for sh in SHAPES:
@@ -596,6 +632,60 @@ ALIAS = {
     "total": "False (no exception) for foreign operands",
     "ne": "!= is the negation of ==",
 }
+
+
+def explore_copy(ctx):
+    """copy.deepcopy of a tree (the generic copy, or the class's own __deepcopy__): the copy
+    is a different object with the same component names in pre-order, it compares equal to
+    the original and serialises to the same lines; the original is unchanged."""
+    model = ctx.model
+    fails = []
+    n = 0
+    for sh, kinds, lays in trees(ctx.thorough):
+        it = TreeInterp(model)
+        try:
+            root, nodes = build(it, sh, kinds, lays)
+            before = [comp_name(it, c) for c in nodes]
+            ser0 = it._memo_key(it.call(it.getattr(root, "to_ical"), [], {}))
+            n += 1
+            try:
+                cp = it._copy(root, True, {})
+            except AbsRaise as e:
+                fails.append(("copy", f"copy.deepcopy of a component raises {e.cls_name}", dict(shape=sh)))
+                continue
+            if not (isinstance(cp, Obj) and cp.cls is root.cls) or cp is root:
+                fails.append(("copy", "copy.deepcopy does not return a new component of the same class",
+                              dict(shape=sh)))
+                continue
+            cnodes = []
+
+            def pre(c):
+                cnodes.append(c)
+                for s_ in c.attrs.get("subcomponents", []):
+                    pre(s_)
+            pre(cp)
+            names = [comp_name(it, c) for c in cnodes]
+            if names != before:
+                fails.append(("copy", f"the copy has the component names {names}, the original {before}",
+                              dict(shape=sh)))
+                continue
+            if any(a is b for a, b in zip(cnodes, nodes)):
+                fails.append(("copy", "a deep copy shares a component object with the original", dict(shape=sh)))
+            if _eq(it, root, cp) is not True or _eq(it, cp, root) is not True:
+                fails.append(("copy", "a deep copy does not compare equal to the original", dict(shape=sh)))
+            ser1 = it._memo_key(it.call(it.getattr(cp, "to_ical"), [], {}))
+            if ser1 != ser0:
+                fails.append(("copy", "a deep copy serialises differently from the original", dict(shape=sh)))
+            if it._memo_key(it.call(it.getattr(root, "to_ical"), [], {})) != ser0 or \
+                    [comp_name(it, c) for c in nodes] != before:
+                fails.append(("copy", "copying changes the original", dict(shape=sh)))
+        except Unsupported as e:
+            raise AnalysisError(f"deep copy leaves the abstract interface on tree {sh}: {e}")
+    return n, fails
+
+
+LAWS["explore_copy"] = ["deep copies are equal, separate and serialise identically"]
+ALIAS["copy"] = LAWS["explore_copy"][0]
 
 
 def report(ctx, rule, fn, what, loc, floor):
